@@ -500,3 +500,233 @@ func importBodies(p *core.Program) map[*ssa.Function]bool {
 	}
 	return out
 }
+
+// ---------------------------------------------------------------------------
+// sharedOperatorsKeepGosOrder (C01): the binary operators that Risor shares
+// with Go bind, relative to each other, as they do in Go: where Go gives one
+// operator a higher precedence than another, Risor's table does not give it a
+// lower one (`1 + 8 >> 1` is 1 + (8 >> 1)).  The table may be coarser or finer
+// than Go's (&& and || share a level; % has one of its own); it may not be
+// upside down for any pair.
+func sharedOperatorsKeepGosOrder(c *core.Ctx) {
+	p := c.P
+	pp := p.Pkg("parser")
+	info := pp.TypesInfo
+	goPrec := map[string]int{
+		"OR": 1, "AND": 2,
+		"EQ": 3, "NOT_EQ": 3, "LT": 3, "LT_EQUALS": 3, "GT": 3, "GT_EQUALS": 3,
+		"PLUS": 4, "MINUS": 4,
+		"ASTERISK": 5, "SLASH": 5, "MOD": 5, "AMPERSAND": 5, "GT_GT": 5, "LT_LT": 5,
+	}
+	risor := map[string]int64{}
+	pos := map[string]string{}
+	for _, f := range pp.Syntax {
+		ast.Inspect(f, func(nd ast.Node) bool {
+			cl, ok := nd.(*ast.CompositeLit)
+			if !ok {
+				return true
+			}
+			mt, ok := info.TypeOf(cl).Underlying().(*types.Map)
+			if !ok || !core.IsNamed(mt.Key(), pkgPath("token"), "Type") {
+				return true
+			}
+			if b, ok := mt.Elem().Underlying().(*types.Basic); !ok || b.Info()&types.IsInteger == 0 {
+				return true
+			}
+			for _, e := range cl.Elts {
+				kv, ok := e.(*ast.KeyValueExpr)
+				if !ok {
+					continue
+				}
+				k, _ := objOf(info, kv.Key).(*types.Const)
+				tv, has := info.Types[kv.Value]
+				if k == nil || !has || tv.Value == nil {
+					continue
+				}
+				if v, ok := constantInt64(tv.Value); ok {
+					if _, shared := goPrec[k.Name()]; shared {
+						risor[k.Name()] = v
+						pos[k.Name()] = posOf(p, kv)
+					}
+				}
+			}
+			return true
+		})
+	}
+	if len(risor) < 12 {
+		core.Undecidedf("only %d of the operators shared with Go found in a precedence table of package parser", len(risor))
+	}
+	var names []string
+	for n := range risor {
+		names = append(names, n)
+	}
+	sort.Strings(names)
+	n := 0
+	for _, a := range names {
+		for _, b := range names {
+			if goPrec[a] >= goPrec[b] {
+				continue
+			}
+			n++
+			ok := risor[a] <= risor[b]
+			if ok {
+				continue
+			}
+			c.Check(false, "parser.precedences|"+a+"<"+b+"|as-in-go", pos[b],
+				sprintf("Go binds %s less tightly than %s; the table gives %s precedence %d and %s precedence %d: an expression that mixes the two without parentheses is grouped the other way round", a, b, a, risor[a], b, risor[b]))
+		}
+	}
+	c.Pass("parser.precedences|shared-operators-in-go-order", "", sprintf("%d ordered pairs of the %d operators shared with Go examined", n, len(names)))
+	c.Stat("operator_pairs", n)
+}
+
+// ---------------------------------------------------------------------------
+// theRollbackCoversWhatCompilingGrows (C17, C18): a type of the compiler that
+// can be put back to a recorded state (it has a restore method) puts back
+// every slice that compiling appends to.  A slice that is left out keeps what
+// a rejected input added - the code objects of its functions stay children of
+// the main code, and the marshaller writes them out with ids that the rollback
+// took back.
+func theRollbackCoversWhatCompilingGrows(c *core.Ctx) {
+	p := c.P
+	cp := p.Pkg("compiler")
+	info := cp.TypesInfo
+	// types with a restore method, and the fields that method assigns
+	restored := map[*types.Named]map[*types.Var]bool{}
+	funcBodies(cp, func(fn *types.Func, fd *ast.FuncDecl) {
+		nt := core.RecvNamed(fn)
+		if nt == nil || fn.Name() != "restore" {
+			return
+		}
+		set := map[*types.Var]bool{}
+		ast.Inspect(fd.Body, func(nd ast.Node) bool {
+			if as, ok := nd.(*ast.AssignStmt); ok {
+				for _, l := range as.Lhs {
+					if f := rootField(info, l, nt); f != nil {
+						set[f] = true
+					}
+				}
+			}
+			return true
+		})
+		restored[nt] = set
+	})
+	if len(restored) < 2 {
+		core.Undecidedf("only %d types of package compiler have a restore method", len(restored))
+	}
+	// slice fields of those types that something else appends to
+	type grow struct {
+		by  string
+		pos string
+	}
+	grown := map[*types.Var]grow{}
+	owner := map[*types.Var]*types.Named{}
+	funcBodies(cp, func(fn *types.Func, fd *ast.FuncDecl) {
+		if fn.Name() == "restore" {
+			return
+		}
+		ast.Inspect(fd.Body, func(nd ast.Node) bool {
+			as, ok := nd.(*ast.AssignStmt)
+			if !ok || len(as.Lhs) != 1 || len(as.Rhs) != 1 {
+				return true
+			}
+			ce, ok := ast.Unparen(as.Rhs[0]).(*ast.CallExpr)
+			if !ok || !isBuiltinCall(info, ce, "append") {
+				return true
+			}
+			f := fieldOf(info, as.Lhs[0])
+			if f == nil {
+				return true
+			}
+			for nt := range restored {
+				st := nt.Underlying().(*types.Struct)
+				for i := 0; i < st.NumFields(); i++ {
+					if st.Field(i) == f {
+						if _, seen := grown[f]; !seen {
+							grown[f] = grow{by: declName(fd), pos: posOf(p, as)}
+							owner[f] = nt
+						}
+					}
+				}
+			}
+			return true
+		})
+	})
+	var fs []*types.Var
+	for f := range grown {
+		fs = append(fs, f)
+	}
+	sort.Slice(fs, func(i, j int) bool { return owner[fs[i]].Obj().Name()+fs[i].Name() < owner[fs[j]].Obj().Name()+fs[j].Name() })
+	for _, f := range fs {
+		nt := owner[f]
+		ok := restored[nt][f]
+		c.Check(ok, "compiler."+nt.Obj().Name()+".restore|"+f.Name()+"|put-back", grown[f].pos,
+			nt.Obj().Name()+"."+f.Name()+" grows while an input is compiled (in "+grown[f].by+")"+ife(ok, ", and restore puts it back", ", and restore does not touch it: what a rejected input appended stays, and is seen by whoever walks the field afterwards (the marshaller)"))
+	}
+	if len(fs) < 3 {
+		core.Undecidedf("only %d fields that compiling appends to", len(fs))
+	}
+	c.Stat("grown_fields", len(fs))
+}
+
+// ---------------------------------------------------------------------------
+// aTypesNameIsNotItsIdentity (C08): what the boundary remembers about a Go
+// type is remembered under the reflect.Type itself.  The printed name
+// (Type.String, Type.Name) is the same for two types of the same package name
+// and type name from different import paths: a memo keyed by it hands the
+// second type what was made for the first - methods that take and return the
+// other type's values.
+func aTypesNameIsNotItsIdentity(c *core.Ctx) {
+	p := c.P
+	n, bad := 0, 0
+	isTypeName := func(w ssa.Value) bool {
+		call, ok := w.(*ssa.Call)
+		if !ok || !call.Call.IsInvoke() {
+			return false
+		}
+		if !core.IsNamed(call.Call.Value.Type(), "reflect", "Type") {
+			return false
+		}
+		return call.Call.Method.Name() == "String" || call.Call.Method.Name() == "Name"
+	}
+	for _, fn := range repoFns(p, "object") {
+		for _, b := range fn.Blocks {
+			for _, in := range b.Instrs {
+				var key ssa.Value
+				var m ssa.Value
+				switch x := in.(type) {
+				case *ssa.MapUpdate:
+					key, m = x.Key, x.Map
+				case *ssa.Lookup:
+					if _, isMap := x.X.Type().Underlying().(*types.Map); isMap {
+						key, m = x.Index, x.X
+					}
+				}
+				if key == nil || !core.IsStringType(key.Type()) {
+					continue
+				}
+				// a table that outlives the call: a package-level variable or a field
+				longLived := false
+				for _, o := range core.Origins(m) {
+					if u, ok := o.(*ssa.UnOp); ok {
+						switch u.X.(type) {
+						case *ssa.Global, *ssa.FieldAddr:
+							longLived = true
+						}
+					}
+				}
+				if !longLived {
+					continue
+				}
+				n++
+				if isTypeName(key) || core.DependsOn(key, isTypeName) {
+					bad++
+					c.Check(false, core.SSAName(fn)+"|table-keyed-by-a-type's-name|"+itoa(bad), p.Pos(in.Pos()),
+						core.SSAName(fn)+" keeps something under a key made from reflect.Type.String()/Name(): two Go types with the same package name and type name (from different import paths) share the entry, and the second is handed what was built for the first")
+				}
+			}
+		}
+	}
+	c.Pass("object|tables-keyed-by-strings", "", sprintf("%d accesses of long-lived string-keyed tables in package object; none is keyed by a type's printed name", n))
+	c.Stat("string_keyed_table_accesses", n)
+}
